@@ -55,6 +55,8 @@ def _case(draw, tier, shard):
         sib=draw(st.lists(st.integers(0, 7), min_size=1, max_size=3)),
         rep=draw(gen.st_repr()),
         rep_row=draw(st.integers(0, 10 ** 6)),
+        prev_alpha=draw(st.sampled_from([None, 3.0, None, 0.2])),
+        warm_at=draw(st.integers(0, 500)),
     )
 
 
@@ -89,6 +91,8 @@ def evaluate(case, leaf_budget=None):
     sampler = make_sampler(world, case)
     keys, mts, trees = exact.state_space(world, n, out, sib=case.get("sib"))
     try:
+        wsel = [trees[(case.get("warm_at", 0) + 7 * j) % len(trees)] for j in range(max(1, len(trees) // 6))]
+        warm = exact.warm_history(world, case, [sampler.sample_tree], wsel, leaf_budget=30000)
         pi, lp = exact.target(world, trees)
         with exact.ResampleMonitor() as rc:
             K, leaves = exact.transition_matrix(sampler.sample_tree, keys, trees, world["rng"], component, tags, leaf_budget)
@@ -117,6 +121,10 @@ def evaluate(case, leaf_budget=None):
     ]
     if resamples:
         classes.append("resampled")
+    if rc.ties:
+        classes.append("ess-threshold-tie-neutralised")
+    if case.get("prev_alpha") is not None:
+        classes.append("alpha-changed-in-place-before")
     return Outcome(
         nontrivial=support >= 2 and resamples > 0,
         classes=tuple(classes),
@@ -143,39 +151,88 @@ def shrink_candidates(case):
         yield dict(c, values=dict(c["values"], regime="ties"))
     if c.get("rep") is not None:
         yield dict(c, rep=None)
+    if c.get("prev_alpha") is not None:
+        yield dict(c, prev_alpha=None)
     if c.get("outlier_prior", 0) not in (0.0, 0.3):
         yield dict(c, outlier_prior=0.3)
 
 
-def extra(ctx, stats):
-    """thorough tier: two n=4 cases per proposal (library wiring, no outliers, N=2): 243 states, ~2e5 leaves each."""
-    if ctx.tier != "thorough":
-        return
-    from vp.common import case_hash, derive_seed, jsonable, pool_map
-
-    cases = []
-    for pi_, prop in enumerate(("fully", "semi", "bootstrap")):
-        for j in range(2):
-            cases.append(
-                dict(n=4, dims=1, G=4, values=dict(seed=derive_seed(ctx.seed, "c01n4", prop, j), regime="moderate", scale=1.5), alpha=[0.7, 2.0][j], proposal=prop, N=2, thr=[0.5, 1.0][j], outlier_prior=0.0, wiring=["library", "run"][j], sib=[j], leaf_budget=600000)
-            )
-    res = pool_map(_eval_catch, cases, procs=ctx.procs)
-    for c, r in zip(cases, res):
-        stats.evaluations += 1
-        if isinstance(r, dict):
-            stats.violations.append(dict(r, case=jsonable(c)))
-            continue
-        stats.inner += r.weight
-        for cl in r.classes:
-            stats.count(cl)
-        if r.nontrivial:
-            stats.nontrivial_keys.add(case_hash(c))
-
-
-def _eval_catch(case):
+def _rows_task(args):
+    """one chunk of start trees of a big case (rows of K are independent -> parallel over processes)"""
+    case, rows = args
+    out = case.get("outlier_prior", 0.0) > 0
+    component = "pg/%s/%s/%s" % (case.get("wiring", "library"), case["proposal"], "outliers" if out else "no-outliers")
+    tags = dict(n=case["n"], N=case["N"], thr=case["thr"], proposal=case["proposal"], wiring=case.get("wiring", "library"), outliers=out)
     try:
-        return evaluate(case)
+        world = exact.make_world(case)
+        sampler = make_sampler(world, case)
+        keys, mts, trees = exact.state_space(world, case["n"], out, sib=case.get("sib"))
+        with exact.ResampleMonitor() as rc:
+            K, leaves = exact.transition_matrix(sampler.sample_tree, keys, trees, world["rng"], component, tags, 10 ** 7, rows=rows)
+        return dict(rows=rows, K=K[rows], leaves=leaves, ties=[], resamples=rc.count)
     except Violation as v:
         from vp.common import jsonable
 
-        return dict(component=v.component, message=v.message, tags=jsonable(v.tags), detail=jsonable(v.detail))
+        return dict(violation=dict(component=v.component, message=v.message, tags=jsonable(v.tags), detail=jsonable(v.detail)))
+    except exact.Inconclusive as e:
+        return dict(inconclusive=str(e))
+
+
+def extra(ctx, stats):
+    """n = 4 (243 clone trees, ~2e5 leaves per case): rows are distributed over the process pool.
+    quick: one case (proposal rotates with the seed); thorough: two per proposal, both wirings."""
+    from vp.common import case_hash, derive_seed, jsonable, pool_map
+
+    cases = []
+    props = ("fully", "semi", "bootstrap")
+    if ctx.tier == "quick":
+        p = props[ctx.seed % 3]
+        cases.append(dict(n=4, dims=1, G=4, values=dict(seed=derive_seed(ctx.seed, "c01n4q"), regime="moderate", scale=1.5), alpha=0.7, proposal=p, N=2, thr=1.0, outlier_prior=0.0, wiring=["library", "run"][ctx.seed % 2], sib=[0]))
+    else:
+        for prop in props:
+            for j in range(2):
+                cases.append(dict(n=4, dims=1, G=4, values=dict(seed=derive_seed(ctx.seed, "c01n4", prop, j), regime="moderate", scale=1.5), alpha=[0.7, 2.0][j], proposal=prop, N=2, thr=[0.5, 1.0][j], outlier_prior=0.0, wiring=["library", "run"][j], sib=[j]))
+    for case in cases:
+        world = exact.make_world(case)
+        keys, mts, trees = exact.state_space(world, case["n"], False, sib=case.get("sib"))
+        pi, lp = exact.target(world, trees)
+        n_states = len(keys)
+        chunks = [list(range(i, n_states, ctx.procs * 2)) for i in range(ctx.procs * 2)]
+        res = pool_map(_rows_task, [(case, c) for c in chunks if c], procs=ctx.procs)
+        stats.evaluations += 1
+        K = np.zeros((n_states, n_states))
+        bad = None
+        leaves = 0
+        ties = set()
+        resamples = 0
+        for r in res:
+            if "violation" in r:
+                bad = r["violation"]
+                break
+            if "inconclusive" in r:
+                bad = "inconclusive"
+                break
+            K[r["rows"]] = r["K"]
+            leaves += r["leaves"]
+            ties |= set(r["ties"])
+            resamples += r["resamples"]
+        if bad == "inconclusive" or len(ties) > 1:
+            stats.skip("n=4 case inconclusive")
+            continue
+        if bad is not None:
+            stats.violations.append(dict(bad, case=jsonable(case)))
+            continue
+        out = False
+        component = "pg/%s/%s/%s" % (case.get("wiring", "library"), case["proposal"], "no-outliers")
+        tags = dict(n=4, N=2, thr=case["thr"], proposal=case["proposal"], wiring=case["wiring"], outliers=out)
+        try:
+            resid = exact.check_invariance(pi, K, keys, mts, component, tags, TOL)
+        except Violation as v:
+            stats.violations.append(dict(component=v.component, message=v.message, tags=jsonable(v.tags), detail=jsonable(v.detail), case=jsonable(case)))
+            continue
+        stats.inner += leaves
+        stats.count("n=4")
+        stats.count("combo:%s/%s/noout" % (case["proposal"], case["wiring"]))
+        if resamples:
+            stats.nontrivial_keys.add(case_hash(case))
+        stats.notes.append("n=4 %s/%s: %d states, %d leaves, residual %.2e" % (case["proposal"], case["wiring"], n_states, leaves, resid))
